@@ -288,6 +288,100 @@ func (g *gen) request(depth int, enclosing map[string]bool) []Macro {
 	return ops
 }
 
+// readyInsts: live instances that (as far as the generator knows) have an endpoint
+func (g *gen) readyInsts() []int {
+	var l []int
+	for _, i := range g.liveInsts() {
+		if len(g.eps[i]) > 0 {
+			l = append(l, i)
+		}
+	}
+	return l
+}
+
+// thereAndBack: a filter-chain history around one server name and one set of credentials.
+//
+//	the name is at B; the credentials are used there (B's cache is warm, if the TTL allows);
+//	the name moves to A (A may be warmed too);
+//	a request with the same credentials is BOUND to A by WithUpstreamInfo, and before the authenticator / authorizer
+//	resolves the host the name moves back to B (A -> B -> A and B -> A -> B arise from the random choice of A and B);
+//	variants: the name moves once more while the review closure / the review is under way; the bound request is repeated.
+//
+// The bound request must be refused (or decided by A): never answered from B's warm cache or by B's oracle.
+func (g *gen) thereAndBack() []Macro {
+	insts := g.readyInsts()
+	if len(insts) < 2 {
+		return nil
+	}
+	g.feat["there-and-back"] = true
+	perm := g.r.Perm(len(insts))
+	a, b := insts[perm[0]], insts[perm[1]]
+	name := g.pick(aliases)
+	if g.r.Intn(4) == 0 {
+		name = g.pick(clusterNames[:2])
+	}
+	spell := func() string {
+		switch g.r.Intn(6) {
+		case 0:
+			return name + ":6443"
+		case 1:
+			return strings.ToUpper(name[:1]) + name[1:]
+		}
+		return name
+	}
+	isTok := g.r.Intn(2) == 0
+	tok, attrs := g.pick(g.toks), g.r.Intn(len(g.cs.Attrs))
+	req := func(bound bool) Macro {
+		m := Macro{Op: "sar", Host: rig.Hex(spell()), Attrs: attrs, Bound: bound}
+		if isTok {
+			m = Macro{Op: "tok", Host: rig.Hex(spell()), Tok: rig.Hex(tok), Bound: bound}
+		}
+		return m
+	}
+	// the generator's idea of which instances are stopped is approximate (scheduled events may not have run): once a
+	// stop has been generated, every request is followed by the clean-up barrier, as in request()
+	barrier := func(l []Macro) []Macro {
+		if len(g.stopped) > 0 {
+			l = append(l, g.ev(Ev{E: "dropStopped"}))
+		}
+		return l
+	}
+	var ops []Macro
+	ops = append(ops, g.add(name, b))
+	for i := 1 + g.r.Intn(2); i > 0; i-- { // warm B (the same Hostname spelling matters: the cache key is (Hostname, cluster))
+		ops = barrier(append(ops, req(g.r.Intn(2) == 0)))
+	}
+	ops = append(ops, g.add(name, a))
+	if g.r.Intn(3) == 0 {
+		ops = barrier(append(ops, req(g.r.Intn(2) == 0))) // warm A as well
+	}
+	m := req(true)
+	m.Mid0 = []Macro{g.add(name, b)} // back to B between WithUpstreamInfo and the authenticator / authorizer
+	switch g.r.Intn(6) {
+	case 0: // … and to A again while the review closure / the review runs
+		if isTok {
+			m.Mid1 = []Macro{g.add(name, a)}
+		} else {
+			m.Mid = []Macro{g.add(name, a)}
+		}
+	case 1: // the other credentials kind is checked in between (authentication, then the impersonation check)
+		other := Macro{Op: "tok", Host: m.Host, Tok: rig.Hex(tok)}
+		if isTok {
+			other = Macro{Op: "sar", Host: m.Host, Attrs: attrs}
+		}
+		m.Mid0 = barrier(append(m.Mid0, other))
+	}
+	ops = barrier(append(ops, m))
+	if g.r.Intn(3) == 0 { // the same bound request again, now with the name where it was bound / not
+		m2 := req(true)
+		if g.r.Intn(2) == 0 {
+			m2.Mid0 = []Macro{g.add(name, a)}
+		}
+		ops = barrier(append(ops, m2))
+	}
+	return ops
+}
+
 // bind: a third of the requests pass the real WithUpstreamInfo first; a quarter of those see events (mostly their own
 // host changing hands) before the authenticator / authorizer resolves the host again.
 func (g *gen) bind(m *Macro, depth int, enclosing map[string]bool) {
@@ -449,6 +543,8 @@ func genCase(r *rand.Rand, profile string) (*Case, map[string]bool) {
 	for i := 0; i < nOps; i++ {
 		x := r.Intn(100)
 		switch {
+		case x < 7:
+			cs.Ops = append(cs.Ops, g.thereAndBack()...)
 		case x < 74:
 			cs.Ops = append(cs.Ops, g.request(0, map[string]bool{})...)
 		case x < 79 && g.short:
